@@ -476,3 +476,119 @@ Qed.
 Theorem per_address_independent : forall gc ops a,
   decs_of a (arrivals ops (outs (step gc) empty ops)) = decs (outs (step gc) empty (proj a ops)).
 Proof. intros gc ops a. apply independent_gen. reflexivity. Qed.
+
+(* ================= idle_entries_forgotten ================= *)
+(* [la] = last arrival per address so far *)
+Definition Seen (now : Z) (la : N -> option Z) (t : table) : Prop :=
+  forall a, match la a, t a with
+            | None, None => True
+            | Some l, Some e => e_last e = l
+            | Some l, None => gcTime < now - l
+            | None, Some _ => False
+            end.
+
+Lemma seen_step lo now la s o :
+  Base lo -> lo <= now -> Good lo now (tbl s) -> now <= time_of o -> time_of o <= lo + 2^62 ->
+  Seen now la (tbl s) ->
+  Seen (time_of o) (fun a => last_arr a [o] (la a)) (tbl (fst (step true s o))).
+Proof.
+  intros B Hl G Hn Hb S a. rewrite step_tbl. specialize (S a).
+  destruct o as [b n|n]; cbn [time_of last_arr] in *.
+  - assert (C : Ctx lo n) by (eapply ctx_of; eauto).
+    rewrite (allow_char lo now (tbl s) b n C G Hn). cbn [fst]. unfold put.
+    rewrite (N.eqb_sym a b). destruct (N.eqb_spec b a) as [->|Hne].
+    + reflexivity.
+    + destruct (la a), (tbl s a); auto. lia.
+  - assert (C : Ctx lo n) by (eapply ctx_of; eauto).
+    unfold cleanup_t. destruct (la a) as [l|], (tbl s a) as [e|] eqn:E; auto; try lia.
+    pose proof (G a e E) as [_ Hle].
+    rewrite (keep_exact lo now e n C Hle Hn). subst l.
+    destruct (gcTime <? n - e_last e) eqn:El; cbn [negb]; [apply Z.ltb_lt in El; exact El|reflexivity].
+Qed.
+
+Lemma last_arr_cons a o r acc : last_arr a (o :: r) acc = last_arr a r (last_arr a [o] acc).
+Proof. destruct o; reflexivity. Qed.
+
+Lemma seen_run lo : forall ops now la s,
+  Base lo -> lo <= now -> Good lo now (tbl s) -> monotone now ops -> bounded (lo + 2^62) ops ->
+  Seen now la (tbl s) ->
+  Seen (endtime now ops) (fun a => last_arr a ops (la a)) (tbl (final (step true) s ops)).
+Proof.
+  induction ops as [|o r IH]; intros now la s B Hl G M Bd S; [exact S|].
+  destruct M as [Hn M]. destruct Bd as [Hb Bd].
+  pose proof (good_step lo now true s o B Hl G Hn Hb) as G1.
+  pose proof (seen_step lo now la s o B Hl G Hn Hb S) as S1.
+  unfold final in *. cbn [run endtime]. destruct (step true s o) as [s1 r1]. cbn [fst] in *.
+  specialize (IH (time_of o) _ s1 B ltac:(lia) G1 M Bd S1).
+  destruct (run (step true) s1 r). cbn [fst] in *.
+  intros a. specialize (IH a). rewrite last_arr_cons. exact IH.
+Qed.
+
+Lemma last_arr_app_gc a h t : forall acc, last_arr a (h ++ [Gc t]) acc = last_arr a h acc.
+Proof. induction h as [|o r IH]; intros acc; [reflexivity|]. cbn [app]. rewrite (last_arr_cons a o (r ++ [Gc t])), (last_arr_cons a o r). apply IH. Qed.
+
+(* "Entries of idle addresses are forgotten": right after a collection pass at
+   time t the table is exactly the addresses whose last arrival l satisfies
+   t - l <= garbageCollectTime, each with lastTime = l. *)
+Theorem idle_entries_forgotten : forall lo h t a, valid lo (h ++ [Gc t]) ->
+  let s := final (step true) empty (h ++ [Gc t]) in
+  (forall e, tbl s a = Some e -> last_arr a h None = Some (e_last e) /\ t - e_last e <= gcTime) /\
+  (tbl s a = None -> match last_arr a h None with Some l => gcTime < t - l | None => True end).
+Proof.
+  intros lo h t a V. cbv zeta. destruct (valid_parts lo _ V) as (B & M & Bd).
+  assert (S0 : Seen lo (fun _ => None) (tbl empty)) by (intros b; exact I).
+  pose proof (seen_run lo (h ++ [Gc t]) lo (fun _ => None) empty B ltac:(lia) (good_empty lo lo) M Bd S0 a) as S.
+  pose proof (good_run lo true (h ++ [Gc t]) lo empty B ltac:(lia) (good_empty lo lo) M Bd) as G.
+  pose proof (last_arr_app_gc a h t) as El.
+  cbv beta in S. rewrite El in S.
+  (* the last operation is the pass itself: what it kept is not idle *)
+  assert (Et : endtime lo (h ++ [Gc t]) = t).
+  { rewrite (endtime_last lo (h ++ [Gc t]) (Gc t)). rewrite last_last.
+    destruct (h ++ [Gc t]) eqn:E; [destruct h; discriminate|reflexivity]. }
+  rewrite Et in *.
+  assert (Kept : forall e, tbl (final (step true) empty (h ++ [Gc t])) a = Some e -> t - e_last e <= gcTime).
+  { intros e E. rewrite final_app in E. unfold final at 1 in E. cbn [run step] in E. cbn [fst tbl cleanup] in E.
+    unfold cleanup_t in E. destruct (tbl (final (step true) empty h) a) as [e0|] eqn:E0; [|discriminate].
+    destruct (keep e0 t) eqn:K; [|discriminate]. inversion E; subst e0.
+    apply monotone_app in M. destruct M as [M1 M2]. apply bounded_app in Bd. destruct Bd as [B1 B2].
+    pose proof (good_run lo true h lo empty B ltac:(lia) (good_empty lo lo) M1 B1 a e E0) as [_ Hle].
+    cbn [monotone time_of] in M2. destruct M2 as [Hn _]. cbn [bounded time_of] in B2. destruct B2 as [Hb _].
+    pose proof (monotone_endtime lo h M1) as Hlo.
+    assert (C : Ctx lo t) by (eapply ctx_of; eauto).
+    rewrite (keep_exact lo (endtime lo h) e t C Hle Hn) in K.
+    destruct (gcTime <? t - e_last e) eqn:El'; [discriminate|]. apply Z.ltb_ge in El'. exact El'. }
+  split.
+  - intros e E. rewrite E in S. destruct (last_arr a h None) as [l|]; [|contradiction].
+    subst l. split; [reflexivity|apply Kept; exact E].
+  - intros E. rewrite E in S. destruct (last_arr a h None); [exact S|exact I].
+Qed.
+
+(* len(rate.table) of the model is the number of entries *)
+Theorem keys_table : forall gc ops,
+  let s := final (step gc) empty ops in
+  NoDup (keys s) /\ forall a, In a (keys s) <-> tbl s a <> None.
+Proof.
+  intros gc ops. cbv zeta.
+  apply (final_inv (step gc) (fun s => NoDup (keys s) /\ forall a, In a (keys s) <-> tbl s a <> None)).
+  - intros s o [ND K]. destruct o as [b n|n]; cbn [step].
+    + unfold allow. destruct (allow_t (tbl s) b n) as [t' d] eqn:Ea. cbn [fst keys tbl].
+      assert (Ht : t' = fst (allow_t (tbl s) b n)) by (rewrite Ea; reflexivity).
+      assert (Hb : t' b <> None).
+      { rewrite Ht. unfold allow_t. destruct (tbl s b); [destruct (cost <? refill e n)|]; cbn [fst]; unfold put; rewrite N.eqb_refl; discriminate. }
+      assert (Ho : forall a, a <> b -> t' a = tbl s a) by (intros a Ha; rewrite Ht; apply allow_t_other; exact Ha).
+      destruct (tbl s b) as [e|] eqn:Eb.
+      * split; [exact ND|]. intros a. destruct (N.eq_dec a b) as [->|Hne].
+        -- rewrite K, Eb. split; intros _; [exact Hb|discriminate].
+        -- rewrite K, (Ho a Hne). tauto.
+      * split.
+        -- constructor; [|exact ND]. rewrite K, Eb. intros H; apply H; reflexivity.
+        -- intros a. cbn [In]. destruct (N.eq_dec a b) as [->|Hne].
+           ++ split; [intros _; exact Hb|intros _; left; reflexivity].
+           ++ rewrite K, (Ho a Hne). split; [intros [H|H]; [congruence|exact H]|intros H; right; exact H].
+    + destruct gc; cbn [fst]; [|split; assumption].
+      unfold cleanup. cbn [keys tbl]. split; [apply NoDup_filter; exact ND|].
+      intros a. rewrite filter_In, K. unfold cleanup_t.
+      destruct (tbl s a) as [e|]; [destruct (keep e n)|]; split; try tauto; try (intros [H1 H2]; discriminate);
+        try (intros H; split; [discriminate|reflexivity]); intros H; exfalso; apply H; reflexivity.
+  - split; [constructor|]. intros a. cbn. split; [contradiction|intros H; apply H; reflexivity].
+Qed.
